@@ -304,9 +304,13 @@ def real_upd_kwargs(u):
     if u.get("unset_fields"):
         uf = u["unset_fields"]
         kw["unset_fields"] = uf[0] if len(uf) == 1 and u.get("unset_as_str") else list(uf)
+        if len(uf) == 2 and not u.get("unset_as_str"):
+            kw["unset_fields"] = (k for k in list(uf))          # documented as an iterable of keys: a one-shot generator is one
     if u.get("unset_tags"):
         ut = u["unset_tags"]
         kw["unset_tags"] = ut[0] if len(ut) == 1 and u.get("unset_as_str") else tuple(ut)
+        if len(ut) == 2 and not u.get("unset_as_str"):
+            kw["unset_tags"] = iter(tuple(ut))
     return kw
 
 
